@@ -54,6 +54,17 @@ def systematic():
     return items
 
 
+def crate_configs(tier):
+    return [{"name": ID.lower()}, {"name": ID.lower() + "probe", "kind": "genprobe"}]
+
+
+def query_in_config(cfg, kind, args):
+    return (kind == "struct") == (cfg.get("kind") == "genprobe")
+
+
+probe_command = S.struct_probe_command
+
+
 def build_corpus(tier, rng):
     c = Corpus(ID)
     thorough = tier == "thorough"
@@ -61,14 +72,18 @@ def build_corpus(tier, rng):
     for _ in range(600 if thorough else 60):
         cands.append(("random", G.string_enum(rng, allow_default=False, allow_dw=False, allow_fields=False, custom_err=False)))
     infos = G.classify(ID, [it for _, it in cands])
+    reals = G.real_structure(ID, [it for _, it in cands])
     rejected = 0
-    for (fam, it), info in zip(cands, infos):
+    for (fam, it), info, real in zip(cands, infos, reals):
         if not c01.admit(it, info):
             rejected += 1
             continue
         k = c.add_def(it, family=fam, derives=["EnumString"], info=info)
+        seen = set()
         for s, note in G.fromstr_inputs(it, info, rng, flipcap=(4096 if thorough else 256), nrandom=4):
             c.add_q(k, "fromstr", [S.hx(s)], note=note)
+            seen.add(s)
+        S.add_real_literal_inputs(c, k, it, real, seen)
     c.rejected = rejected
     return c
 
